@@ -13,13 +13,23 @@ Case (driver "attacher"):
    "coro":   [bool, bool]        attacher A / B is an ``async def attach_stream``
    "prio":   [p, ...]            non-empty: attacher A is a txtorcon PriorityAttacher with one scripted
                                  sub-attacher per entry, added with that priority
+   "prio_at_install": n          (optional) only the first n sub-attachers are added before the history starts,
+                                 the others by p_add steps - n = 0 installs a still empty PriorityAttacher
+   "falsy":  [fa, fb]            (optional) attacher A / B is an object whose class defines 1: __len__ -> 0,
+                                 2: __bool__ -> False (an "empty container" kind of attacher); 0: neither
    "steps":  [...]}
   steps: world ops [op,a,b,c] (one 650 event each) and
      ["n_new", a, b, c, d]   a new connection reaches tor: a -> kind/target (NEW, NEWRESOLVE, *.exit, names
                              merely containing ".exit"), b -> the attacher's answer for it
                              (ANSWER_KINDS[b%9] x delivery (b//9)%3: at once / Deferred already fired / fired
                              by a later d_fire), c -> which circuit, d -> source address, sub-attacher answers
-     ["d_fire", a, c]        the a-th pending answer arrives now (the circuit is picked now)
+     ["d_fire", a, c]        the a-th pending answer arrives now (the circuit is picked now; a circuit prepared
+                             by d_fresh is used if there is one)
+     ["d_fresh", a, b, c]    the attacher behind the a-th pending answer gets itself a fresh circuit: b%3 = 0 tor
+                             launches one (650 CIRC n LAUNCHED), else state.build_circuit() (EXTENDCIRCUIT 0, reply,
+                             LAUNCHED event); it is driven to BUILT (c%4 = 0: only one stage further), and the answer
+                             - that very circuit - arrives in the same step ((c//4)%2 = 0) or with a later d_fire
+     ["p_add", i]            PriorityAttacher.add_attacher(next sub-attacher not added yet)
      ["x_set", a]            state.set_attacher(...): a%4 = 0 the installed one again, 1 a different one,
                              2 None (remove), 3 install the other one when the slot is empty
      ["t_attach", a, b]      tor carries out an attachment (as instructed, or its own choice when it may)
@@ -158,8 +168,8 @@ def _steps(world_ops, own, min_size, max_size):
     return st.lists(st.one_of(*alts), min_size=min_size, max_size=max_size)
 
 
-OWN_A = {"n_new": (7, 4), "d_fire": (3, 2), "x_set": (1, 1), "t_attach": (3, 2), "p_remove": (1, 1),
-         "x_via": (1, 1)}
+OWN_A = {"n_new": (7, 4), "d_fire": (4, 2), "d_fresh": (2, 3), "x_set": (1, 1), "t_attach": (3, 2),
+         "p_remove": (1, 1), "p_add": (2, 1), "x_via": (1, 1)}
 OWN_B = {"v_connect": (3, 3), "v_advance": (8, 1), "u_new": (3, 3), "t_attach": (4, 2), "x_set_other": (1, 0)}
 WORLD_OPS_B = dict(WORLD_OPS_A, c_progress=6, s_succeeded=5)
 
@@ -182,14 +192,17 @@ def attacher_cases():
     steps = st.tuples(st.sampled_from([[["x_set", 3]], [["x_set", 3]], [["x_set", 3]], [["x_set", 7]], []]),
                       steps).map(lambda t: t[0] + t[1])
     return st.builds(
-        lambda m, big, pre, win, coro, prio, s: {"modern": m, "big_ids": big, "pre": pre, "window": win,
-                                                  "coro": coro, "prio": prio, "steps": s},
+        lambda m, big, pre, win, coro, prio, s, fal, npi: {
+            "modern": m, "big_ids": big, "pre": pre, "window": win, "coro": coro, "prio": prio, "steps": s,
+            "falsy": fal, "prio_at_install": min(npi, len(prio))},
         st.booleans(), st.sampled_from([False, False, False, True]),
         _pre(24),
         st.one_of(st.just([]), st.just([]), torworld.steps(max_size=8, weights=WINDOW_WEIGHTS)),
         st.lists(st.booleans(), min_size=2, max_size=2),
         st.one_of(st.just([]), st.just([]), st.lists(st.integers(0, 4), min_size=2, max_size=5)),
-        steps)
+        steps,
+        st.lists(st.sampled_from([0, 0, 0, 1, 2]), min_size=2, max_size=2),
+        st.sampled_from([9, 9, 0, 0, 1]))
 
 
 def via_cases():
@@ -229,6 +242,7 @@ class SRec(object):
         self.late = False               # answer delivered at a later step
         self.sub_answers = None
         self.losers = set()
+        self.fresh = False              # the answer names a circuit that did not exist when the stream appeared
 
     def __repr__(self):
         return "<stream %d first %s under %s>" % (self.sid, self.first_status, self.installed)
@@ -240,6 +254,7 @@ class Pending(object):
         self.d = d
         self.kind = kind
         self.coro = coro
+        self.fresh = None               # CircuitM the attacher got itself for this answer (d_fresh)
 
 
 class Conn(object):
@@ -300,7 +315,8 @@ class Run(object):
         for s in case["pre"]:
             self.world.apply(s)
         try:
-            self.sess = Session(self.world, hold_acks=False, extra_handler=self.world.handler)
+            self.sess = Session(self.world, hold_acks=False, extra_handler=self.world.handler,
+                                answer_extend=True)
         except BootFailed as e:
             self.res.bad("bootstrap-failed", str(e))
             return False
@@ -390,12 +406,15 @@ class Run(object):
         return rp
 
     # -- answers
-    def make_value(self, kind, c):
-        """(value, label, cid-or-None, valid) for the wanted class, falling back when the world has no such circuit."""
+    def make_value(self, kind, c, newer_than=None):
+        """(value, label, cid-or-None, valid) for the wanted class, falling back when the world has no such circuit.
+        ``newer_than``: prefer (every other time) a circuit created after that incarnation number."""
         w = self.world
         live = [w.circuits[k] for k in sorted(w.circuits) if w.circuits[k].inc in self.obj_of]
         if kind == "built":
             cand = [m for m in live if m.status == "BUILT"]
+            if newer_than is not None and c % 2 == 0:
+                cand = [m for m in cand if m.inc > newer_than] or cand
             if not cand:
                 kind = "none"
             else:
@@ -439,6 +458,10 @@ class Run(object):
         rec.delivered = True
         rec.ans = label
         self.answer_classes.add(label)
+        cm = self.inc_of_obj.get(id(value))
+        if cm is not None and cm.inc > rec.m.inc:
+            rec.fresh = True
+            self.res.label("answer:" + label + "/circuit-newer-than-the-stream")
         if label == "None":
             ok = {(0,)}
         elif label == "DO_NOT_ATTACH":
@@ -549,6 +572,9 @@ class Run(object):
         elif rec.losers and got in rec.losers:
             res.bad("priority-attacher-order", text + " - that is the answer of a less important sub-attacher "
                     "(priorities %r)" % (self.case["prio"],))
+        elif rec.fresh and ans == "circuit-BUILT" and got == ():
+            res.bad("circuit-newer-than-the-stream-rejected", text + " - the circuit was launched after the stream "
+                    "appeared and is known to the state and BUILT now")
         elif ans == "DO_NOT_ATTACH" and got == (0,):
             res.bad("do-not-attach-sends-attachstream-0", text)
         elif ans == "None" and got == ():
@@ -619,6 +645,21 @@ def _make_attachers(run):
         def attach_stream_failure(self, stream, fail):
             pass
 
+    def falsy(base, mode):
+        if mode == 1:
+            class EmptyLen(base):
+                def __len__(self):
+                    return 0
+            return EmptyLen
+        if mode == 2:
+            class FalseBool(base):
+                def __bool__(self):
+                    return False
+            return FalseBool
+        return base
+
+    run.falsy_class = falsy
+
     @implementer(IStreamAttacher)
     class SubAttacher(object):
         def __init__(self, idx):
@@ -642,16 +683,22 @@ class AttacherRun(Run):
         self.attachers = {}
         self.subs = []
         self.sub_removed = set()
+        fal = case.get("falsy") or [0, 0]
+        self.sub_added = set()
         if self.prio:
             pa = PriorityAttacher()
+            n0 = case.get("prio_at_install")
+            n0 = len(case["prio"]) if n0 is None else n0
             for i, p in enumerate(case["prio"]):
                 sub = Sub(i)
                 self.subs.append(sub)
-                pa.add_attacher(sub, priority=p)
+                if i < n0:
+                    pa.add_attacher(sub, priority=p)
+                    self.sub_added.add(i)
             self.attachers["A"] = pa
         else:
-            self.attachers["A"] = (Coro if case["coro"][0] else Sync)("A")
-        self.attachers["B"] = (Coro if case["coro"][1] else Sync)("B")
+            self.attachers["A"] = self.falsy_class(Coro if case["coro"][0] else Sync, fal[0])("A")
+        self.attachers["B"] = self.falsy_class(Coro if case["coro"][1] else Sync, fal[1])("B")
         self.coro = {"A": bool(case["coro"][0]) and not self.prio, "B": bool(case["coro"][1])}
 
     # -- consultations
@@ -695,7 +742,7 @@ class AttacherRun(Run):
         if rec is None:
             self.res.bad("consulted-about-unknown-stream", "sub-attacher %d asked about %r" % (idx, stream))
             return None
-        if idx in self.sub_removed:
+        if idx in self.sub_removed or idx not in self.sub_added:
             self.res.bad("priority-attacher/removed-sub-attacher-consulted", "sub %d about stream %d" % (idx, rec.sid))
         if idx in rec.sub_consults and rec.n_detached == 0:
             self.res.bad("priority-attacher/sub-attacher-consulted-twice", "sub %d about stream %d" % (idx, rec.sid))
@@ -713,7 +760,10 @@ class AttacherRun(Run):
                 kind = SUB_KINDS[(d * 31 + c * 17 + i * 101 + (d >> i)) % 6]
             answers.append(self.make_value(kind, c + i))
         rec.sub_answers = answers
-        active = [i for i in range(len(prios)) if i not in self.sub_removed]
+        active = [i for i in range(len(prios)) if i in self.sub_added and i not in self.sub_removed]
+        if len(active) < len(prios):
+            self.res.label("priority:no-sub-attacher-present" if not active
+                           else "priority:some-sub-attachers-absent")
         winners = []
         for p in sorted(set(prios[i] for i in active)):
             group = [i for i in active if prios[i] == p and answers[i][0] is not None]
@@ -799,20 +849,35 @@ class AttacherRun(Run):
             if not self.pending:
                 return
             _, a, c = s
-            p = self.pending.pop(a % len(self.pending))
-            before = self.reports()
-            value, label, cid, valid = self.make_value(p.kind, c)
-            self.expect(p.rec, value, label, cid, valid)
-            self.late_delivered += 1
-            if p.coro:
-                p.d.callback(("raise", value) if label == "raises" else ("value", value))
-            elif label == "raises":
-                from twisted.python.failure import Failure
-                p.d.errback(Failure(value))
-            else:
-                p.d.callback(value)
-            self.settle()
-            self.check_reported(before)
+            self.fire(self.pending.pop(a % len(self.pending)), c)
+        elif op == "d_fresh":
+            if not self.pending:
+                return
+            a, b, c = s[1:4]
+            p = self.pending[a % len(self.pending)]
+            m = self.launch_fresh(b)
+            if m is None:
+                return
+            p.fresh = m
+            stages = 0
+            while stages < 12:
+                st_ = self.world.build_step_for(m)
+                if st_ is None or (c % 4 == 0 and stages >= 2):
+                    break
+                self.world_step(st_)
+                stages += 1
+            if (c // 4) % 2 == 0:
+                self.pending.remove(p)
+                self.fire(p, c)
+        elif op == "p_add":
+            if self.prio:
+                todo = [i for i in range(len(self.subs)) if i not in self.sub_added]
+                if todo:
+                    i = todo[0]
+                    self.attachers["A"].add_attacher(self.subs[i], priority=self.case["prio"][i])
+                    self.sub_added.add(i)
+                    res.label("priority:sub-attacher-added-" + (
+                        "after-install" if self.installed == "A" else "later"))
         elif op == "x_set":
             self.x_set(s[1])
         elif op == "t_attach":
@@ -822,12 +887,60 @@ class AttacherRun(Run):
         elif op == "p_remove":
             if self.prio and self.subs and s[1] % 3 == 0:
                 i = (s[1] // 3) % len(self.subs)
-                if i not in self.sub_removed:
+                if i in self.sub_added and i not in self.sub_removed:
                     self.attachers["A"].remove_attacher(self.subs[i])
                     self.sub_removed.add(i)
                     res.label("priority:sub-attacher-removed")
         else:
             raise HarnessError("unknown step %r" % (s,))
+
+    def fire(self, p, c):
+        """The pending answer p arrives now."""
+        before = self.reports()
+        m = p.fresh
+        if m is not None and m.inc in self.obj_of:
+            valid = m.gone is None and m.status == "BUILT"
+            label = "circuit-" + (("gone-" + str(m.gone)) if m.gone else str(m.status))
+            value, cid = self.obj_of[m.inc], m.id
+        else:
+            value, label, cid, valid = self.make_value(p.kind, c, newer_than=p.rec.m.inc)
+        self.expect(p.rec, value, label, cid, valid)
+        self.late_delivered += 1
+        if p.coro:
+            p.d.callback(("raise", value) if label == "raises" else ("value", value))
+        elif label == "raises":
+            from twisted.python.failure import Failure
+            p.d.errback(Failure(value))
+        else:
+            p.d.callback(value)
+        self.settle()
+        self.check_reported(before)
+
+    def launch_fresh(self, b):
+        """A circuit that does not exist yet: launched by tor itself or asked for with state.build_circuit()."""
+        if b % 3 == 0:
+            rp = self.world.apply(["c_launch", b // 3, 1 + (b // 3) % 2, b])
+            if rp is None:
+                return None
+            self.emit(rp)
+            self.res.label("fresh-circuit:launched-by-tor")
+            return rp.obj
+        n0 = len(self.sess.extend_log)
+        self.sess.extend_pick = b // 3
+        w = Watch(self.state.build_circuit())
+        self.settle()
+        if len(self.sess.extend_log) != n0 + 1:
+            self.res.bad("build_circuit-wrote-no-extendcircuit", "step %d: %r" % (self.step_no, self.pipe.commands[-2:]))
+            return None
+        m = self.sess.extend_log[n0][2]
+        if m is None:
+            return None                     # tor could not start one (551)
+        self.note_objects()
+        if m.inc not in self.obj_of or not w.succeeded or w.result is not self.obj_of[m.inc]:
+            self.res.label("fresh-circuit:build_circuit-result-not-the-listed-circuit")
+            return None
+        self.res.label("fresh-circuit:state.build_circuit")
+        return m
 
     def x_via(self, a):
         """The other API while a user attacher is installed: the implicit second attacher must be refused."""
@@ -905,9 +1018,20 @@ class AttacherRun(Run):
             res.bad("set_attacher-raised", "%s: %r" % (where, raised))
             return
         if action == "install":
+            obj = self.attachers[want]
+            if self.prio and want == "A" and not (self.sub_added - self.sub_removed):
+                res.label("set_attacher:install-of-empty-PriorityAttacher")
+            if not obj:
+                res.label("set_attacher:install-of-falsy-object/" + (
+                    "empty-PriorityAttacher" if self.prio and want == "A" else type(obj).__name__))
             if vals != ["1"]:
-                res.bad("install-without-leave-streams-unattached-1", "%s: SETCONF lines %r" % (
-                    where, [x[0] for x in new]))
+                if not obj:
+                    res.bad("falsy-attacher-object-taken-for-removal",
+                            "%s: the attacher object is falsy (%s) and set_attacher wrote %r instead of "
+                            "__LeaveStreamsUnattached=1" % (where, type(obj).__name__, [x[0] for x in new]))
+                else:
+                    res.bad("install-without-leave-streams-unattached-1", "%s: SETCONF lines %r" % (
+                        where, [x[0] for x in new]))
             self.installed = want
         elif action == "same":
             if vals not in ([], ["1"]):
@@ -1338,7 +1462,7 @@ def run(ctx):
         ctx.enumerate("attacher", priority_cases(4, 4), name="priority-orders-4")
 
 
-# written against the tree with out/fixes/C09-*.diff applied
+# written against the tree with fixes/C09-*.diff applied
 MUTANTS = [
     ("via-match-on-host-only", "txtorcon/circuit.py",
      "        k = (stream.source_addr, stream.source_port)\n        try:\n            circuit, d = self._circuit_targets.pop(k)",
@@ -1394,6 +1518,25 @@ MUTANTS = [
     ("priority-attacher-last-opinion-wins", "txtorcon/attacher.py",
      "                if answer is not None:\n                    return answer\n        return None",
      "                if answer is not None:\n                    best = answer\n        return locals().get('best')"),
+    ("answer-validated-against-circuits-known-when-the-stream-appeared", "txtorcon/torstate.py",
+     "        def issue_stream_attach(circ):\n            txtorlog.msg(\"circuit:\", circ)\n",
+     "        known_then = dict(self.circuits)\n\n        def issue_stream_attach(circ):\n"
+     "            txtorlog.msg(\"circuit:\", circ)\n"
+     "            if isinstance(circ, Circuit) and circ.id not in known_then:\n"
+     "                raise RuntimeError(\"Attacher returned a circuit unknown to me.\")\n"),
+    ("falsy-attacher-object-taken-for-removal", "txtorcon/torstate.py",
+     "        if attacher is not None:\n            if self._attacher is attacher:",
+     "        if attacher:\n            if self._attacher is attacher:"),
+    ("priority-attacher-order-cached-at-first-use", "txtorcon/attacher.py",
+     "        for _, _, attacher in sorted(self._attacher_heap, key=lambda item: item[:2]):",
+     "        if not hasattr(self, '_order'):\n"
+     "            self._order = sorted(self._attacher_heap, key=lambda item: item[:2])\n"
+     "        for _, _, attacher in self._order:"),
+    ("priority-attacher-empty-at-install-stays-deaf", "txtorcon/attacher.py",
+     "    def attach_stream(self, stream, circuits):\n        # a heap's",
+     "    def attach_stream(self, stream, circuits):\n        if not getattr(self, '_seen', None):\n"
+     "            self._seen = [len(self._attacher_to_entry) > 0]\n"
+     "        if not self._seen[0]:\n            return None\n        # a heap's"),
     ("attachstream-names-the-wrong-stream", "txtorcon/torstate.py",
      '                    u"ATTACHSTREAM {} {}".format(stream.id, circ.id).encode("ascii")',
      '                    u"ATTACHSTREAM {} {}".format(circ.id, stream.id).encode("ascii")'),
